@@ -143,6 +143,21 @@ Section C04.
                                      c_flight12 s_flight_ok c_flight_ok s_nst c_key s_key s_resume c_sess_key
                                      s_hrr c_hello2 s_reply13 c_psk_keys c_flight13 psk_alg). Qed.
 
+  (* ... and it is enforced AT the ServerHello, in the full and in the abbreviated handshake alike: whatever
+     follows the ServerHello (key exchange, Finished -- the functions a3, a4 and the primitives), the run ends with
+     the client refusing it.  No hypothesis: holds even if the older version's Finished cannot be trusted. *)
+  Theorem sentinel_stops_at_server_hello :
+    (forall a1 a2 sh', client_sees12 smin smax c_hello s_ch_ok s_reply12 a1 a2 = Some sh' ->
+       sentinel_hit cmax (sh_version sh') (sh_tail sh') = true ->
+       forall a3 a4, exists a, R12 a1 a2 a3 a4 = stop 1 a) /\
+    (forall a1 a2 sh', client_sees12r hash fin prf_of smin smax c_hello s_ch_ok s_resume a1 a2 = Some sh' ->
+       sentinel_hit cmax (sh_version sh') (sh_tail sh') = true ->
+       forall a3, exists a, R12r a1 a2 a3 = stop 1 a).
+  Proof. exact (conj (run12_stops_at_server_hello hash fin prf_of suite_ok cmin cmax smin smax c_hello s_ch_ok s_reply12
+                                                  c_extra_ok c_flight12 s_flight_ok c_flight_ok s_nst c_key s_key)
+                     (run12r_stops_at_server_hello hash fin prf_of suite_ok cmin cmax smin smax c_hello s_ch_ok c_extra_ok
+                                                   s_resume c_sess_key)). Qed.
+
   (* ---- TLS_FALLBACK_SCSV: a server that completes did not see the SCSV below its maximum -- *)
   Theorem scsv_enforced :
     (forall a1 a2 a3 a4 s, o_s (R12 a1 a2 a3 a4) = Some s ->
@@ -210,6 +225,16 @@ Theorem transcript_sites_as_modelled :
   server_hello_sites = expected_server_hello_sites /\ guard_positions = expected_guard_positions /\
   client_hello_sites = expected_client_hello_sites /\ client_suite_sites = expected_client_suite_sites.
 Proof. exact sites_as_expected. Qed.
+
+(* what the sentinel code DECIDES (extracted by executing it over its whole finite domain, so any equivalent
+   rewrite gives the same table): the client's check between _clientGetServerHello and the first branch into
+   TLS 1.3 / resumption / key exchange is sentinel_hit with illegal_parameter; the random of every TLS <= 1.2
+   ServerHello construction (full and resumed) is sentinel_for *)
+Theorem sentinel_sites_decide_as_modelled :
+  forallb check_row_ok sentinel_check_table = true /\ List.length sentinel_check_table = 75%nat /\
+  forallb write_row_ok sentinel_write_table = true /\ List.length sentinel_write_table = 28%nat /\
+  sentinel_write_functions = expected_sentinel_write_functions.
+Proof. exact sentinel_tables_ok. Qed.
 
 (* ---- the hypotheses are satisfiable, and every flow has a completing run -------------------- *)
 Example ideal_primitives_exist :
